@@ -6,7 +6,7 @@ from checks import poolrun
 
 def oracle(log):
     msgs = []
-    cap0 = None; last_cap = None; live = 0; kind = None
+    cap0 = None; last_cap = None; live = 0; kind = None; cyc = None
     for ln in log.split('\n'):
         parts = ln.split('|')
         if len(parts) < 3 or '=' not in parts[0]:
@@ -15,6 +15,20 @@ def oracle(log):
         caps = dict(kv.split('=') for kv in parts[2].split() if '=' in kv)
         if lhs[0] == 'pool' and rhs[:1] == ['ok']:
             kind = 'pool'; cap0 = int(caps['cap'])
+        # an allocate/release cycle between two capacity queries for the same size, without growth: the bucket's capacity is as before
+        if lhs and lhs[0] == 'q' and 'pcap' in caps:
+            if cyc and cyc['size'] == lhs[1] and cyc['allocs'] == 1 and cyc['rels'] == 1 and not cyc['grew'] and int(caps['pcap']) < cyc['pcap']:
+                msgs.append('one %s / release cycle lost capacity: pool_capacity_left(%s) was %d before and is %d after' % (cyc['what'], lhs[1], cyc['pcap'], int(caps['pcap'])))
+            cyc = dict(size=lhs[1], pcap=int(caps['pcap']), allocs=0, rels=0, grew=False, what='')
+        elif cyc and lhs:
+            if 'U+' in parts[1]:
+                cyc['grew'] = True
+            if lhs[0] in ('an', 'tn', 'aa', 'ta'):
+                cyc['allocs'] += 1 if rhs[:1] == ['ok'] else 5; cyc['what'] = ' '.join(lhs)
+            elif lhs[0] in ('dn', 'da', 'tdn', 'tda') and rhs[:1] == ['true']:
+                cyc['rels'] += 1
+            elif lhs[0] not in ('d',):
+                cyc['allocs'] += 5      # anything else in between: not a plain cycle
         if kind != 'pool' or not lhs:
             continue
         cap_before = last_cap
